@@ -559,10 +559,11 @@ func runScenario(id int, sc Scenario, r *hx.Rand) {
 			for _, k := range ps.stream {
 				ids = append(ids, ps.idx[k])
 			}
-			get, str := "-", "-"
+			get, str, strv := "-", "-", "-"
 			if n > 0 {
 				gs := make([]string, n)
 				ss := make([]string, n)
+				sv := make([]string, n)
 				for i, k := range ps.distinct {
 					vs := make([]string, len(flat))
 					for j, f := range flat {
@@ -572,9 +573,11 @@ func runScenario(id int, sc Scenario, r *hx.Rand) {
 					}
 					gs[i] = strings.Join(vs, ".")
 					ss[i] = hx.HexS(k.String())
+					sv[i] = hx.HexS(k.StringValues())
 				}
 				get = strings.Join(gs, ",")
 				str = strings.Join(ss, ",")
+				strv = strings.Join(sv, ",")
 			}
 			less := "-"
 			if n > 0 {
@@ -686,11 +689,11 @@ func runScenario(id int, sc Scenario, r *hx.Rand) {
 				}
 				eq = strings.Join(rows, ".")
 			}
-			lines = append(lines, fmt.Sprintf("obs %d p=%d fields=%s flat=%s n=%d ids=%s get=%s str=%s less=%s sorts=%s ns=%s nsr=%s nsp=%s eq=%s",
-				id, pi, names(ps.p.Fields()), names(flat), n, ints(ids), get, str, less, sorts, ns, nsr, nsp, eq))
+			lines = append(lines, fmt.Sprintf("obs %d p=%d fields=%s flat=%s n=%d ids=%s get=%s str=%s less=%s sorts=%s ns=%s nsr=%s nsp=%s eq=%s strv=%s",
+				id, pi, names(ps.p.Fields()), names(flat), n, ints(ids), get, str, less, sorts, ns, nsr, nsp, eq, strv))
 			if sc.S {
-				lines = append(lines, fmt.Sprintf("sobs %d p=%d flat=%s n=%d ids=%s get=%s less=%s sorts=%s nsp=%s",
-					id, pi, names(flat), n, ints(ids), get, less, sorts, nsp))
+				lines = append(lines, fmt.Sprintf("sobs %d p=%d flat=%s n=%d ids=%s get=%s less=%s sorts=%s nsp=%s str=%s strv=%s",
+					id, pi, names(flat), n, ints(ids), get, less, sorts, nsp, str, strv))
 			}
 			// Judged in EVERY scenario (also those outside the specification's precondition):
 			// Key.Less must be a strict total order on the distinct keys (C09.less_strict_total).
